@@ -13,6 +13,8 @@ import argparse
 import importlib
 import json
 import os
+import warnings
+warnings.filterwarnings("ignore")
 import re
 import signal
 import sys
